@@ -49,7 +49,7 @@ def p_zip(workdir):
     ZipCreator.create_zip(src, os.path.join(workdir, "out.zip"))
 
 
-def p_download(workdir):
+def p_download(workdir, title="out.png"):
     import logging
     logging.disable(logging.CRITICAL)
     os.environ["MWLIB_FETCH_MAX_REQUESTS_PER_SECOND"] = "0"
@@ -75,9 +75,36 @@ def p_download(workdir):
             return Resp()
 
     fetch._get_download_client = lambda url: Client()
-    path = os.path.join(workdir, "out.png")
+    from mwlib.utils import unorganized
+
+    class Pool:
+        def spawn(self, fn, *a):
+            fn(*a)
+
+        def add(self, g):
+            pass
+
+    class FsOut:
+        def get_imagepath(self, t):
+            return os.path.join(workdir, unorganized.fs_escape(t))
+
+    class Stub:          # what Fetcher._download_image needs of a Fetcher
+        fsout = FsOut()
+        image_download_pool = pool = Pool()
+
     mark(workdir)
-    fetch.download_to_file("http://w.test/images/x.png", path, (path + "\xb7").encode("utf-8"))
+    # the fetcher's own choice of the temporary name, then download_to_file
+    fetch.Fetcher._download_image(Stub(), "http://w.test/images/x.png", title)
+
+
+def p_download_longname(workdir):
+    from vlib.props.C20 import LONGTITLE
+    try:
+        p_download(workdir, LONGTITLE)
+    except OSError as e:
+        import errno
+        if e.errno != errno.ENAMETOOLONG:      # the temporary name (two bytes longer) does not fit: not a fault of ours
+            raise
 
 
 def _install_wiki(workdir):
@@ -114,7 +141,11 @@ def p_makezip(workdir):
     make_zip(output=out, wiki_options={"script_extension": ".php", "imagesize": 800}, metabook=mb, status=st)
 
 
-def p_mwzip(workdir):
+def p_mwzip_keep(workdir):
+    p_mwzip(workdir, keep=True)
+
+
+def p_mwzip(workdir, keep=False):
     """the mw-zip -o FILE path: ZipBuilder.build"""
     case = _install_wiki(workdir)
     from mwlib.apps import buildzip
@@ -124,7 +155,7 @@ def p_mwzip(workdir):
         mb.append_article(t, revision=r)
     mb.wikis.append(metabook.WikiConf(baseurl="http://wiki.test/w/"))
     out = os.path.join(workdir, "out.zip")
-    cfg = buildzip.BuildConfig(output=out, posturl=None, getposturl=0, keep_tmpfiles=False, status_file=None, config="http://wiki.test/w/",
+    cfg = buildzip.BuildConfig(output=out, posturl=None, getposturl=0, keep_tmpfiles=keep, status_file=None, config="http://wiki.test/w/",
                                imagesize=800, collectionpage=None, noimages=False, logfile=None, username=None, password=None,
                                domain=None, title=None, subtitle=None, editor=None, script_extension=".php", metabook=mb)
     mark(workdir)
@@ -151,7 +182,7 @@ def p_render_odf(workdir):
 
 
 PRODUCERS = {"status": p_status, "status_big": p_status_big, "zip": p_zip, "download": p_download, "makezip": p_makezip,
-             "mwzip": p_mwzip, "render": p_render, "render_odf": p_render_odf}
+             "mwzip": p_mwzip, "mwzip_keep": p_mwzip_keep, "download_longname": p_download_longname, "render": p_render, "render_odf": p_render_odf}
 
 if __name__ == "__main__":
     PRODUCERS[sys.argv[1]](sys.argv[2])
